@@ -48,7 +48,7 @@ pub enum SRes {
     Put(Option<usize>),
     Peers(Option<Vec<[u8; 32]>>),
     Policy(DownloadPolicy),
-    Heads(Vec<([u8; 32], u64)>),
+    Heads(Vec<([u8; 32], u64, Vec<u8>)>),
     News(u64),
     Hashes(Vec<[u8; 32]>),
     Namespaces(Vec<([u8; 32], bool)>),
@@ -193,8 +193,8 @@ impl Machine {
             SOp::Heads { ns } => {
                 let mut v = Vec::new();
                 for r in self.ts.s().get_latest_for_each_author(NamespaceId::from(ns))? {
-                    let (a, t, _k) = r?;
-                    v.push((a.to_bytes(), t));
+                    let (a, t, k) = r?;
+                    v.push((a.to_bytes(), t, k.to_vec()));
                 }
                 SRes::Heads(v)
             }
@@ -367,7 +367,7 @@ pub fn csres(r: &SRes) -> String {
         SRes::Put(o) => format!("(RPut {})", coption(*o, |n| n.to_string())),
         SRes::Peers(o) => format!("(RPeers {})", coption(o.as_ref(), |l| clist(l, |p| n256(p)))),
         SRes::Policy(p) => format!("(RPolicy {})", cpolicy(p)),
-        SRes::Heads(l) => format!("(RHeads {})", clist(l, |(a, t)| format!("({}, {})", n256(a), t))),
+        SRes::Heads(l) => format!("(RHeads {})", clist(l, |(a, t, k)| format!("({}, {}, {})", n256(a), t, cbytes(k)))),
         SRes::News(n) => format!("(RNews {})", n),
         SRes::Hashes(l) => format!("(RHashes {})", clist(l, |h| n256(h))),
         SRes::Namespaces(l) => format!("(RNamespaces {})", clist(l, |(n, w)| format!("({}, {})", n256(n), cbool(*w)))),
@@ -432,7 +432,7 @@ pub fn jsres(r: &SRes) -> String {
     match r {
         SRes::Entries(l) => format!("\"{} entries\"", l.len()),
         SRes::Hashes(l) => format!("\"{} hashes\"", l.len()),
-        SRes::Heads(l) => format!("\"heads [{}]\"", l.iter().map(|(a, t)| format!("{}@{}", h4(a), t)).collect::<Vec<_>>().join(" ")),
+        SRes::Heads(l) => format!("\"heads [{}]\"", l.iter().map(|(a, t, k)| format!("{}@{} key={}", h4(a), t, hex::encode(k))).collect::<Vec<_>>().join(" ")),
         SRes::Peers(l) => format!("\"peers {}\"", match l { None => "none".to_string(), Some(l) => l.iter().map(h4).collect::<Vec<_>>().join(" ") }),
         SRes::Namespaces(l) => format!("\"namespaces [{}]\"", l.iter().map(|(n, w)| format!("{}:{}", h4t(n), if *w { "w" } else { "r" })).collect::<Vec<_>>().join(" ")),
         other => format!("\"{}\"", format!("{:?}", other).replace('"', "'").replace('\\', "/")),
